@@ -1,7 +1,7 @@
 // C08 E-SHIM harness for reader-writer locks with a single state word (spin_rw_mutex; rw_mutex uses rwm.cpp).
 // usage: rw <rand|dfs|replay> <arg> [maxruns]   (scenario on stdin: one "prog op op ..." line per thread)
 //   rand <seed> <nruns> | dfs <preemption bound> <maxruns> | replay <t,t,t,...>
-// Per run prints:  run <i> / eff <tid> <ops actually executed> / e <tid> <kind> <a> <b> <ok> (accesses to the state
+// Per run prints:  run <i> / eff <tid> <ops actually executed> / e <tid> <kind> word <order> <a> <b> <ok> (accesses to the state
 // word, in execution order) / res <tid> <results oldest-first> / mon <verdict> / sched <tids> / end
 // Built with -fno-access-control (upgrade/downgrade are protected) and the E-SHIM prelude.
 #include <oneapi/tbb/spin_rw_mutex.h>
@@ -49,7 +49,7 @@ static bool run_once(verif::Schedule& sch, int run_idx, bool print) {
                 if (b && g.wgen != gen0) g.err = "upgrade returned true although another writer held the lock in between";
                 acquire_w();
             }
-            else if (op == "downgrade" && held == WR) { eff[t].push_back(op); g.W = 0; m.downgrade(); acquire_r(); }
+            else if (op == "downgrade" && held == WR) { eff[t].push_back(op); g.W = 0; acquire_r(); m.downgrade(); }   // ghost: a reader from before the call on, so a writer that gets in during the call is caught
         }
         // release whatever is still held so that other threads can finish
         if (held == WR) { eff[t].push_back("unlock"); g.W = 0; m.unlock(); }
@@ -62,7 +62,7 @@ static bool run_once(verif::Schedule& sch, int run_idx, bool print) {
         for (size_t t = 0; t < T; ++t) { printf("eff %zu", t); for (auto& o : eff[t]) printf(" %s", o.c_str()); printf("\n"); }
         const void* sa = (const void*)&m.m_state;
         for (auto& e : r.log) if (e.addr == sa && e.kind <= verif::K_FXOR)
-            printf("e %d %s %llu %llu %d\n", e.tid, verif::kind_name(e.kind), (unsigned long long)e.a, (unsigned long long)e.b, e.ok);
+            printf("e %d %s word %s %llu %llu %d\n", e.tid, verif::kind_name(e.kind), verif::order_name(e.order), (unsigned long long)e.a, (unsigned long long)e.b, e.ok);
         for (size_t t = 0; t < T; ++t) { printf("res %zu", t); for (int v : res[t]) printf(" %d", v); printf("\n"); }
         printf("mon %s%s\n", g.err.empty() ? (r.deadlock ? "DEADLOCK" : "ok") : "VIOLATION ", g.err.c_str());
         printf("sched"); for (int s : r.schedule) printf(" %d", s); printf("\nend\n");
